@@ -1614,7 +1614,18 @@ func (w *sessWorld) writer(ss *sessStream, dir int) {
 			simrt.Sleep(time.Duration(op.N) * time.Millisecond)
 		case "wdeadline":
 			d.wDeadline = time.Now().Add(time.Duration(op.N) * time.Millisecond)
-			_ = st.SetWriteDeadline(d.wDeadline)
+			// SetDeadline (both directions at once) where nobody reads on this end, so that the read half cannot
+			// disturb another thread's bookkeeping
+			otherR := ss.plan.S2C.R
+			if dir == 1 {
+				otherR = ss.plan.C2S.R
+			}
+			if len(otherR) == 0 && !ss.plan.Callback && op.N%2 == 0 {
+				_ = st.SetDeadline(d.wDeadline)
+				w.probe("set_deadline_both")
+			} else {
+				_ = st.SetWriteDeadline(d.wDeadline)
+			}
 		case "close":
 			w.closeEnd(ss, wend, 0)
 		case "burst":
@@ -1777,7 +1788,16 @@ func (w *sessWorld) reader(ss *sessStream, dir int) {
 			simrt.Sleep(time.Duration(op.N) * time.Millisecond)
 		case "deadline":
 			d.rDeadline = time.Now().Add(time.Duration(op.N) * time.Millisecond)
-			_ = st.SetReadDeadline(d.rDeadline)
+			otherW := ss.plan.S2C.W
+			if dir == 1 {
+				otherW = ss.plan.C2S.W
+			}
+			if len(otherW) == 0 && op.N%2 == 0 {
+				_ = st.SetDeadline(d.rDeadline) // nobody writes on this end: both halves at once
+				w.probe("set_deadline_both")
+			} else {
+				_ = st.SetReadDeadline(d.rDeadline)
+			}
 		case "close":
 			w.closeEnd(ss, rend, 1)
 		case "release":
